@@ -14,7 +14,7 @@ SERVER_DEFAULT = {'application_name': 'pgcat', 'TimeZone': 'Etc/UTC', 'DateStyle
                   'standard_conforming_strings': 'on', 'work_mem': '4MB'}
 PNAME = {'app': 'application_name', 'tz': 'TimeZone', 'wm': 'work_mem'}
 VALUE = {
-    'application_name': {'d': 'pgcat', 'v1': ['my app', 'app-2', 'psql', 'ünïcode app', 'a' * 60],
+    'application_name': {'d': 'pgcat', 'v1': ['My App', 'App-2', 'Billing', 'ünïcode App', 'Aa' * 30],
                          'vq': ["O'Rei;lly", "it's", "'; DROP TABLE t; --", "a'b'c", "back\\slash'q"]},
     'TimeZone': {'d': 'Etc/UTC', 'v1': ['Europe/Paris', 'America/New_York', 'UTC'], 'vq': ["Zone'X", "Eu'rope"]},
     'work_mem': {'d': '4MB', 'v1': ['8MB', '64kB'], 'vq': ["9'MB"]},
@@ -39,7 +39,14 @@ def run_scenario(item):
         intx = {}
         mywm = {}
 
+        base = {p: (v['v1'] if isinstance(v['v1'], str) else rng.choice(v['v1'])) for p, v in VALUE.items()}
+
         def pick(param, cls):
+            # v1 is one fixed value per scenario; vc is the same value in different letter case
+            if cls == 'v1':
+                return base[param]
+            if cls == 'vc':
+                return base[param].swapcase() if param == 'application_name' else base[param]
             v = VALUE[param][cls]
             return v if isinstance(v, str) else rng.choice(v)
 
@@ -134,7 +141,7 @@ def check_c12(prop, tier, seed):
         else:
             v.extra.setdefault('model_negative_control', []).append('%s violates %s' % (d, r2.invariant_violated))
     n = {'quick': 500, 'thorough': 8000}[tier]
-    res = tlc.run_tlc('Gen_Params', 'Gen_Params.cfg', workers=1, simulate=n * 3, depth=10, seed=seed, timeout=1200)
+    res = tlc.run_tlc('Gen_Params', 'Gen_Params.cfg', workers=1, simulate=n * 3, depth=13, seed=seed, timeout=1200)
     if res.rc != 0:
         v.tool_error('Gen_Params rc=%d %s' % (res.rc, res.errors()[:2]))
         return v.finish()
@@ -151,13 +158,37 @@ def check_c12(prop, tier, seed):
     def score(s):
         sc = sum(2 for x in s if x['op'] == 'stmt') + sum(1 for x in s if x['op'] in ('set', 'startup'))
         sc += 3 * len({x['c'] for x in s if x['op'] == 'stmt'})
-        sc += sum(2 for x in s if x.get('v') == 'vq')
+        sc += sum(2 for x in s if x.get('v') in ('vq', 'vc'))
         return sc
     uniq.sort(key=lambda s: -score(s))
     chosen = uniq[:n]
     v.extra['programs_generated'] = len(uniq)
+    # pairwise family (also behaviours of Gen_Params): two clients state value classes (va, vb) for one tracked
+    # parameter and then alternate statements on the shared connection; optionally one of them SETs the other's class
+    pair = []
+    for p in ('app', 'tz'):
+        for va in ('d', 'v1', 'vc', 'vq'):
+            for vb in ('d', 'v1', 'vc', 'vq'):
+                prog = [{'op': 'startup', 'c': 'A', 'p': p, 'v': va}, {'op': 'startup', 'c': 'B', 'p': p, 'v': vb}]
+                for c in ('A', 'B', 'A', 'B'):
+                    prog += [{'op': 'begin', 'c': c, 'p': '', 'v': ''}, {'op': 'stmt', 'c': c, 'p': '', 'v': ''},
+                             {'op': 'commit', 'c': c, 'p': '', 'v': ''}]
+                pair.append(prog)
+                prog2 = [{'op': 'startup', 'c': 'A', 'p': p, 'v': va},
+                         {'op': 'begin', 'c': 'A', 'p': '', 'v': ''}, {'op': 'stmt', 'c': 'A', 'p': '', 'v': ''},
+                         {'op': 'set', 'c': 'A', 'p': p, 'v': vb}, {'op': 'stmt', 'c': 'A', 'p': '', 'v': ''},
+                         {'op': 'commit', 'c': 'A', 'p': '', 'v': ''},
+                         {'op': 'begin', 'c': 'B', 'p': '', 'v': ''}, {'op': 'stmt', 'c': 'B', 'p': '', 'v': ''},
+                         {'op': 'commit', 'c': 'B', 'p': '', 'v': ''},
+                         {'op': 'begin', 'c': 'A', 'p': '', 'v': ''}, {'op': 'stmt', 'c': 'A', 'p': '', 'v': ''},
+                         {'op': 'commit', 'c': 'A', 'p': '', 'v': ''}]
+                pair.append(prog2)
+    chosen = pair + chosen[:max(0, n - len(pair))]
     items = [{'id': j + 1, 'steps': s, 'seed': seed * 23 + j, 'pool_size': 1 if j % 3 else 2, 'extra_startup': j % 4 == 0}
              for j, s in enumerate(chosen)]
+    for it in items[:len(pair)]:
+        it['pool_size'] = 1
+        it['extra_startup'] = False
     results = core.run_parallel(run_scenario, items, workers=14)
     recs = []
     ok = []
@@ -207,5 +238,5 @@ def check_c12(prop, tier, seed):
         v.add_sample({'program': [(x['op'], x['c'], x['p'], x['v']) for x in it['steps']], 'trace': r['recs'][1:5]})
     v.cov['rule'] = ('programs = random behaviours (tlc -simulate, seeded) of Gen_Params: 9 steps over {startup parameter, BEGIN, '
                      'statement, SET tracked/untracked, COMMIT} by 2 clients sharing 1-2 server connections, value classes '
-                     '{default, plain, with quotes}; non-trivial = at least two statements executed; distinct = programs')
+                     '{default, plain, same letters in other case, with quotes}, plus the pairwise family (every ordered pair of value classes for one parameter, two clients alternating on one connection); non-trivial = at least two statements executed; distinct = programs')
     return v.finish()
